@@ -300,6 +300,13 @@ func init() {
 				c.TimeoutMS = 60000
 				cs = append(cs, c)
 			}
+			// consecutive command lines on one f1 instance
+			for i := 0; i < 3; i++ {
+				c := core.MkCase("C08", "cli", 970+i, seed, c08CLIParams{Mode: "tworuns", Conc: i})
+				c.Solo = true
+				c.TimeoutMS = 60000
+				cs = append(cs, c)
+			}
 			// surroundings that do not work (log file cannot be created, push gateway refuses): the verdict is about
 			// the iterations, setup and teardown only
 			for i, env := range []string{"logdir", "gateway503", "logdir", "gateway503"} {
@@ -519,10 +526,49 @@ func (quietHandler) Handle(context.Context, slog.Record) error { return nil }
 func (h quietHandler) WithAttrs([]slog.Attr) slog.Handler      { return h }
 func (h quietHandler) WithGroup(string) slog.Handler           { return h }
 
+// c08TwoRuns: two command lines on one f1 instance; what the first one set (a tolerance) is not in force for the second.
+func c08TwoRuns(c *core.Case, o *core.Outcome, p c08CLIParams) {
+	var n atomic.Int64
+	inst := f1.New().Add("sc", func(t *f1testing.T) f1testing.RunFn {
+		return func(t *f1testing.T) {
+			if n.Add(1)%4 == 1 {
+				t.Fail()
+			}
+		}
+	})
+	first := []string{"run", "users", "-c", "1", "-i", "4", "-d", "30s", "sc"}
+	switch p.Conc % 3 {
+	case 0:
+		first = append(first, "--max-failures", "2")
+	case 1:
+		first = append(first, "--max-failures-rate", "50")
+	default:
+		first = append(first, "--ignore-dropped", "--max-failures", "1")
+	}
+	err1 := inst.ExecuteWithArgs(first)
+	err2 := inst.ExecuteWithArgs([]string{"run", "users", "-c", "1", "-i", "4", "-d", "30s", "sc"})
+	o.Events += n.Load()
+	o.AddObs("cli_runs", 2)
+	desc := fmt.Sprintf("first=%v", first)
+	if err1 != nil {
+		o.Violate("cli-tworuns-first", "1 failure of 4 within the tolerance given on the command line, yet the command returned %v (%s)", err1, desc)
+		return
+	}
+	if err2 == nil {
+		o.Violate("cli-tworuns-second", "the second command line on the same f1 instance gives no tolerance and 1 of its 4 iterations failed, yet it returned success: the first command's tolerance was still in force (%s)", desc)
+		return
+	}
+	o.Sig("cli:tworuns:%d", p.Conc%3)
+}
+
 // c08CLI runs the real CLI and compares the returned error with the reference.
 func c08CLI(c *core.Case, o *core.Outcome) {
 	var p c08CLIParams
 	c.Params(&p)
+	if p.Mode == "tworuns" {
+		c08TwoRuns(c, o, p)
+		return
+	}
 	var started, failedPlanned, passed atomic.Int64
 	var setupRuns atomic.Int64
 	gate := make(chan struct{})
